@@ -7,6 +7,7 @@ import (
 	"time"
 
 	"github.com/google/inverting-proxy/app/types"
+	"google.golang.org/appengine/v2/datastore"
 )
 
 // Exports for the verification drivers (injected by `go build -overlay`; not part of the repo).
@@ -25,4 +26,11 @@ func VerifBlobRoundTrip(ctx context.Context, data []byte, name string) (back []b
 	}
 	back, err = b.read(ctx)
 	return back, len(b.Inlined), b.Parts, err
+}
+
+// VerifSetLastSeen back-dates (or sets) the liveness record of a backend, as the passage of time would.
+func VerifSetLastSeen(ctx context.Context, backendID string, t time.Time) error {
+	key := datastore.NewKey(ctx, backendTrackerKind, backendID, 0, nil)
+	_, err := datastore.Put(ctx, key, &backendTracker{LastSeen: t})
+	return err
 }
